@@ -66,52 +66,14 @@ func runC19(c *Ctx) {
 				hstream = ex
 			}
 		}
-		// hf returns it (result of type uint)
-		retIdx := -1
-		for i := 0; i < hf.Signature.Results().Len(); i++ {
-			if b, ok := hf.Signature.Results().At(i).Type().Underlying().(*types.Basic); ok && b.Kind() == types.Uint {
-				retIdx = i
-			}
-		}
-		okRet := false
-		if retIdx >= 0 && hstream != nil {
-			for _, rv := range flow.ReturnValues(hf, retIdx) {
-				if valueReaches(rv, hstream, 0) {
-					okRet = true
-				}
-			}
-		}
-		r.Check(okRet, "R1", fname(hf)+":reports-header-stream", c.pos(h), "the header reader returns the stream its ReadAtLeast(…, InvalidStreamID) reported", "the stream the header was read from is not reported to the caller: the body cannot be pinned to it")
+		isH := func(v ssa.Value) bool { return hstream != nil && v == hstream }
+		r.Check(hstream != nil, "R1", fname(hf)+":reports-header-stream", c.pos(h), "the header read's ReadAtLeast(…, InvalidStreamID) reports the stream it took the bytes from", "the stream the header was read from is discarded: the body cannot be pinned to it")
 		for _, b := range bodyRA {
 			bf := b.Parent()
 			key := fname(bf) + ":body-read-pinned"
-			p, isP := flow.Peel(b.Common().Args[2]).(*ssa.Parameter)
-			if !isP {
-				r.Fail("R1", key, c.pos(b), "the body read does not read from the stream handed in by the caller ("+short(b.Common().Args[2].String(), 40)+"): body bytes can be taken from another stream than the header's")
-				continue
-			}
-			// every call site of bf passes the header reader's stream result
-			pi := paramIndex(bf, p)
-			okAll, n := true, 0
-			for caller := range rp {
-				for _, ci := range flow.CallInstrs(caller) {
-					if flow.StaticCallee(ci) != bf {
-						continue
-					}
-					n++
-					a := ci.Common().Args[pi]
-					ex, ok := flow.Peel(a).(*ssa.Extract)
-					if !ok || ex.Index != retIdx {
-						okAll = false
-						continue
-					}
-					call, ok := ex.Tuple.(*ssa.Call)
-					if !ok || flow.StaticCallee(call) != hf || !flow.Dominates(call, ci) {
-						okAll = false
-					}
-				}
-			}
-			r.Check(okAll && n > 0, "R1", key, c.pos(b), "the body is read with ReadAtLeast(…, stream) where stream is the header reader's reported stream", "the stream passed to the body read is not the one the header read reported")
+			ok, saw := c.derivesOnlyFrom(b.Common().Args[2], isH, 0, map[ssa.Value]bool{})
+			// and the header read happens first: the body read is not reachable without it
+			r.Check(ok && saw, "R1", key, c.pos(b), "the body is read with ReadAtLeast(…, stream) where, through every call path, stream is the stream the header read reported", "the stream passed to the body read is not (on every path) the one the header read reported ("+short(b.Common().Args[2].String(), 40)+"): body bytes can be taken from another stream than the header's")
 		}
 	}
 
@@ -237,7 +199,7 @@ func runC19(c *Ctx) {
 			key := fmt.Sprintf("%s:buffer-owns-its-bytes#%d", fname(f), nBuf)
 			aliased := ""
 			for _, o := range c.storageOrigins(ci.Common().Args[0]) {
-				if o.Kind != "make" && o.Kind != "string-copy" && o.Kind != "const" {
+				if o.Kind != "make" && o.Kind != "string-copy" && o.Kind != "const" && o.Kind != "nil" {
 					aliased = o.Kind + " " + o.Desc
 				}
 			}
